@@ -38,11 +38,18 @@ Theorem C20_pass_facts :
   check_pass_facts translator_ok_logging server_censor_commands server_censor_guard_count
     parse_command_called_with_default parse_command_returns_lowered_verb pass_replies_literal
     pass_rest_sinks pass_decorator_rest_sinks dispatcher_rest_sinks
-    dispatcher_verb_var dispatcher_rest_var unknown_verb_reply_names
+    dispatcher_lookup_by_parsed_verb unknown_verb_reply_names
     login_pass_prefix login_pass_censor_after login_forwards_censor_after
     client_password_uses secret_raise_sites = true.
 Proof. exact pass_facts_ok. Qed.
 Print Assumptions C20_pass_facts.
+
+(* no logging call anywhere is handed an object of a class whose __repr__/__str__ prints the password it was
+   configured with (Gen.Logging.secret_repr_classes, today ["User"]): such objects are found by USE (an expression
+   read as E.<field of that class> in the enclosing function), the taint pass treats them as a password source *)
+Theorem C20_no_secret_object_logged : Gen.Logging.secret_object_log_args = [].
+Proof. exact secret_objects_ok. Qed.
+Print Assumptions C20_no_secret_object_logged.
 
 (* ---------------------------------------------------------------- server *)
 (* For every spelling V the server dispatches as PASS, all arguments p1 p2 (spaces, leading or
